@@ -204,6 +204,38 @@ pub fn run(rep: &mut Rep) {
                 }
             }
         }
+        // shares at chosen evaluation points (x is a field element: 0, 1, p-1, neighbours and both integer orders),
+        // first / second position swapped
+        if i % 8 == 1 {
+            let pts: [(Fr, Fr); 8] = [
+                (Fr::from(0u64), v1.x),
+                (v1.x, Fr::from(0u64)),
+                (Fr::from(1u64), -Fr::from(1u64)),
+                (-Fr::from(1u64), Fr::from(1u64)),
+                (Fr::from(0u64), Fr::from(1u64)),
+                (Fr::from(1u64), Fr::from(0u64)),
+                (v1.x, v1.x + Fr::from(1u64)),
+                (v2.x + Fr::from(1u64), v2.x),
+            ];
+            let (xa, xb) = pts[(i / 8) % 8];
+            let mut wa = mk_witness(secret, ext, id, limit, &s1, &mut rng);
+            let mut wb = mk_witness(secret, ext, id, limit, &s2, &mut rng);
+            wa.x = xa;
+            wb.x = xb;
+            rep.ev();
+            rep.stratum(format!("recover-chosen-x|pair{}|s={sl}", (i / 8) % 8));
+            if let (Ok((ma, _)), Ok((mb, _))) = (cheap_message(&wa, &mut rng), cheap_message(&wb, &mut rng)) {
+                match recover(&rln, &ma, &mb) {
+                    Rec::Secret(o) if o == fr_le32(&secret).to_vec() => {}
+                    Rec::Secret(o) => rep.violation("recover:wrong-secret:chosen-x", json!({"secret": fr_s(&secret), "x": [fr_s(&xa), fr_s(&xb)], "got": hex(&o)})),
+                    Rec::Empty => rep.violation("recover:empty-for-double-signal:chosen-x", json!({"secret": fr_s(&secret), "x": [fr_s(&xa), fr_s(&xb)]})),
+                    Rec::Err(e) => rep.violation("recover:error-for-double-signal:chosen-x", json!({"secret": fr_s(&secret), "x": [fr_s(&xa), fr_s(&xb)], "err": e})),
+                    Rec::Panic(p) => rep.violation(format!("recover:panic:chosen-x:{}", p.file()), json!({"secret": fr_s(&secret), "panic": p.msg, "at": p.loc})),
+                }
+            } else {
+                rep.violation("proof-values:failed-on-valid-input", json!({"x": [fr_s(&xa), fr_s(&xb)]}));
+            }
+        }
         // degenerate pairs
         if i % 16 == 0 {
             rep.ev();
